@@ -810,6 +810,9 @@ func (g *Gen) Select(wantAlias bool) *GSelect {
 		if style == 1 {
 			return fmt.Sprintf("`F%d`", names-1)
 		}
+		if r.Chance(0.02) {
+			return fmt.Sprintf("f%d_a_rather_long_alias_name_%s", names-1, strings.Repeat("x", r.Intn(40)))
+		}
 		return fmt.Sprintf("f%d", names-1)
 	}
 
